@@ -19,6 +19,8 @@ impl<'a> Assembler<'a> {
         value: <IT as BitValue>::ValueType,
         len: usize,
     ) -> Result<(), RtcmError> {
+        #[cfg(rtcm_rs_verif)]
+        crate::verif::trace_record(crate::verif::TRACE_PUT, self.offset, len);
         if self.data.len() * 8 < self.offset + len {
             Err(RtcmError::BufferOverflow)
         } else {
